@@ -25,6 +25,7 @@ LEAN_TARGETS = ["OmplModel.Props.C17", DRIVER]
 B = core.f2bits
 F = core.bits2f
 
+BG_OBJECTIVES = ("toll", "tolli", "step", "stepi", "checker", "integral", "clear")
 LOCKSTEP = ("collapse", "rope", "subdivide", "interp", "interpn", "reduce", "pshort")
 REMOVERS = ("collapse", "reduce")
 DENSIFIERS = ("subdivide", "interp", "interpn")
@@ -153,8 +154,14 @@ def gen_scenario(rng, tier):
     sc.path = path
     # goal states for findBetterGoal / simplify: the last state plus a few free states
     sc.goals = [path[-1]]
-    for _ in range(rng.below(4)):
+    for _ in range(rng.range(1, 4)):
         g = free_state()
+        if g is not None and rng.chance(1, 2):
+            # near the path's last stretch, where findBetterGoal samples
+            q = path[rng.range(max(0, len(path) - 4), len(path) - 1)]
+            g2 = tuple(min(max(q[d] + rng.uniform(-1.5, 1.5), 0.1), 9.9) for d in range(sc.pdim)) + tuple(q[sc.pdim:])
+            if free_segment(sc, g2, g2, -1e-6):
+                g = g2
         if g is not None:
             sc.goals.append(g)
     rng.shuffle(sc.goals)
@@ -234,6 +241,8 @@ def gen_ops(rng, sc, tier):
             ops.append(("bspline", "rnd %d %s bspline %d %s" % (sd, "len", rng.choice([0, 1, 3, 5]), B(rng.choice([2.2e-16, 1e-3, L / 100])))))
             ops.append(("perturb", "rnd %d %s perturb %s %d %d %s" % (sd, o(), B(rng.choice([0.3, 1.0, L, 3 * L])), steps(), steps(), B(snap()))))
             ops.append(("bettergoal", "rnd %d %s bettergoal %d %d %s %s" % (sd, o(), rng.choice([0, 3, 1000000]), rng.choice([1, 10]), B(rr()), B(snap()))))
+            for bo in BG_OBJECTIVES:
+                ops.append(("bettergoal", "rnd %d %s bettergoal 1000000 %d %s %s" % (rng.below(100000), bo, rng.choice([10, 40]), B(rng.choice([1.0, 0.33, 0.6])), B(snap()))))
             for _ in range(2):
                 ops.append(("simplify", "rnd %d %s simplify %d %d" % (sd, "len", rng.choice([0, 1, 2, 3, 4, 5, 6, 8, 10, 13, 21, 40, 1000000]), rng.below(2))))
             ops.append(("simplifymax", "rnd %d %s simplifymax" % (sd, "len")))
@@ -249,6 +258,9 @@ def parse_result(line, w):
     """harness result line -> dict; states stay tuples of bit strings"""
     t = line.split()
     r = {}
+    if len(t) >= 2 and t[-2] == "worse":
+        r["worse"] = t[-1] == "1"
+        t = t[:-2]
     i = 0
     if t[i] != "r":
         raise ValueError("no r")
@@ -424,6 +436,13 @@ def oracle(sc, routine, line, res, objective, goals_used):
     if base in OWN_OBJECTIVE and objective in ("len",):
         if res["cost1"] > res["cost0"] * (1 + rel) + 1e-12:
             fails.append(("never_worse", "cost %r -> %r under %s" % (res["cost0"], res["cost1"], objective)))
+    if base == "bettergoal" and objective != "len":
+        # findBetterGoal compares COMPLETE candidate paths (cost to the sample + motion to the goal against costs.back()) with the very
+        # sums path.cost(obj) uses, so path.cost(obj) itself must not get worse, whatever the objective (verdict of the objective's own
+        # isCostBetterThan, ignoring differences below 1e-9 relative)
+        if res.get("worse") and abs(res["cost1"] - res["cost0"]) > rel * max(1.0, abs(res["cost0"]), abs(res["cost1"])):
+            fails.append(("never_worse", "findBetterGoal returned %d and made the path worse under its own objective %s: cost %r -> %r"
+                          % (res["ret"], objective, res["cost0"], res["cost1"])))
     if base in RET_FALSE_UNCHANGED and res["ret"] == 0 and out_bits != inp_bits:
         fails.append(("ret_false", "returned false but changed the path"))
     if base in ("simplify", "simplifymax") and res["ret"] == 1 and not res["chk"]:
@@ -824,6 +843,147 @@ def gen_corner_scenario(rng):
     return sc, ops
 
 
+def gen_toll_scenario(rng):
+    """directed for findBetterGoal under a cost field that is NOT proportional to length along a segment: a left-to-right path whose
+    vertices avoid the toll corridor 3 < x < 4.5 (so the path itself crosses it for free under the end-point trapezoid rule) and
+    2-5 goal states around the corridor's exits and the path's end"""
+    sc = Scenario()
+    sc.kind, sc.pdim, sc.w = "rv2", 2, 2
+    sc.res = 0.01
+    if rng.chance(1, 3):
+        lo = (rng.uniform(5.5, 7.5), rng.uniform(0.5, 3.0))
+        sc.boxes = [(lo, (lo[0] + 1.0, lo[1] + 1.5))]
+    y = rng.uniform(2.0, 8.0)
+    xs = [rng.uniform(0.3, 1.0)]
+    while xs[-1] < 8.5:
+        nx = xs[-1] + rng.uniform(0.6, 2.4)
+        if 2.9 < nx < 4.6:
+            nx = rng.uniform(4.6, 5.4) if rng.chance(2, 3) else nx
+        xs.append(min(nx, 9.7))
+    path = []
+    for x in xs:
+        y = min(max(y + rng.uniform(-0.8, 0.8), 0.3), 9.7)
+        path.append((x, y))
+    path = [q for k, q in enumerate(path) if k == 0 or free_segment(sc, path[k - 1], q, -1e-6) and free_segment(sc, q, q, -1e-6)]
+    if len(path) < 3:
+        return None
+    sc.path = path
+    sc.goals = [path[-1]]
+    for _ in range(rng.range(1, 4)):
+        q = rng.choice(path)
+        g = (min(max(rng.choice([rng.uniform(4.5, 5.2), rng.uniform(2.3, 3.0), q[0] + rng.uniform(-1, 1)]), 0.1), 9.9),
+             min(max(q[1] + rng.uniform(-1.2, 1.2), 0.1), 9.9))
+        if free_segment(sc, g, g, -1e-6):
+            sc.goals.append(g)
+    rng.shuffle(sc.goals)
+    ops = []
+    for bo in ("toll", "toll", "toll", "tolli", "step", "stepi", "checker"):
+        for _ in range(3):
+            ops.append(("bettergoal", "rnd %d %s bettergoal 1000000 %d %s %s" % (rng.below(100000), bo, rng.choice([10, 50]),
+                                                                                 B(rng.choice([1.0, 1.0, 0.5])), B(rng.choice([0.005, 0.0, 0.05])))))
+    return sc, ops
+
+
+def gen_hybridseq(rng):
+    """interleaved recordPath / computeHybridPath.  Half of the scenarios have a wall (x in [4.8, 5.2], full height) with paths on
+    both sides that cannot be cross-connected; a poor path is recorded and computed first, better ones later."""
+    sc = Scenario()
+    sc.kind, sc.pdim, sc.w = "rv2", 2, 2
+    sc.res = 0.01
+    wall = rng.chance(1, 2)
+    if wall:
+        sc.boxes = [((4.8, -1.0), (5.2, 11.0))]
+    for _ in range(rng.below(3)):
+        lo = (rng.choice([rng.uniform(0.5, 3.0), rng.uniform(6.0, 8.0)]), rng.uniform(0.5, 7.5))
+        sc.boxes.append((lo, (lo[0] + rng.uniform(0.5, 1.2), lo[1] + rng.uniform(0.8, 2.0))))
+
+    def rnd_pt(side):
+        for _ in range(100):
+            x = rng.uniform(0.3, 4.5) if side == 0 else rng.uniform(5.5, 9.7) if side == 1 else rng.uniform(0.3, 9.7)
+            q = (x, rng.uniform(0.3, 9.7))
+            if free_segment(sc, q, q, -1e-6):
+                return q
+        return None
+
+    def make_path(side, a, b, detour):
+        p = [a]
+        for _ in range(detour):
+            for _ in range(40):
+                q = rnd_pt(side)
+                if q is not None and free_segment(sc, p[-1], q, -1e-6):
+                    p.append(q)
+                    break
+        if not free_segment(sc, p[-1], b, -1e-6):
+            return None
+        return p + [b]
+    steps, paths = [], []
+    nrec = rng.range(2, 5)
+    shared = rng.chance(1, 2)
+    a0, b0 = rnd_pt(0 if wall else 2), rnd_pt(0 if wall else 2)
+    for k in range(nrec):
+        side = (k % 2 if wall else 2)
+        if shared and not wall:
+            a, b = a0, b0
+        else:
+            a, b = rnd_pt(side), rnd_pt(side)
+        if a is None or b is None:
+            continue
+        # poor paths first (long detours), better ones later
+        p = make_path(side, a, b, max(0, 4 - 2 * k) + rng.below(2))
+        if p is None:
+            continue
+        paths.append(p)
+        steps.append("rec %d %d %s" % (rng.below(2), len(p), " ".join(B(x) for q in p for x in q)))
+        if rng.chance(4, 5):
+            steps.append("comp")
+        if rng.chance(1, 12):
+            steps.append("clear")
+            paths_marker = "clear"
+    steps.append("comp")
+    obj = rng.choice(["len", "len", "integral", "toll"])
+    n = sum(1 for _ in steps)
+    line = "hybridseq %s %d %s" % (obj, n, " ".join(steps))
+    return sc, line, obj
+
+
+def run_hybridseq(ck, hbin, rng):
+    sc, line, obj = gen_hybridseq(rng)
+    script = ["pathops", sc.env_line(), line]
+    impl, rc, err = run_h(ck, hbin, script, timeout=120)
+    ck.count("op:hybridseq")
+    if rc != 0 or impl is None or len(impl) < 2 or not impl[1].startswith("seq"):
+        return [dict(kind="oracle", routine="hybridseq", clause="crash", detail="rc=%s %s %s" % (rc, (impl or [""])[-1][:100], (err or "")[:500]), script=script, observed=impl or [])]
+    parts = impl[1].split(" | ")
+    recorded = []
+    fails = []
+    ncomp = 0
+    for k, part in enumerate(parts[1:-1]):
+        t = part.split()
+        if t[0] == "rec":
+            recorded.append(F(t[3]))
+        elif t[0] == "clear":
+            recorded = []
+        elif t[0] == "comp":
+            ncomp += 1
+            if t[1] == "none":
+                if recorded:
+                    fails.append(("hybrid_le_best", "step %d: no hybrid path although %d paths are recorded" % (k, len(recorded))))
+                continue
+            kk = int(t[2])
+            i = 3 + kk * sc.w
+            hcost, chk = F(t[i + 1]), t[i + 3] == "1"
+            if not recorded:
+                continue      # a stale path after clear() is not covered by the property text
+            best = min(recorded)
+            if hcost > best * (1 + 1e-9) + 1e-12:
+                fails.append(("hybrid_le_best", "step %d: after recording %d paths (best cost %r) computeHybridPath/getHybridPath gives a path "
+                              "of cost %r" % (k, len(recorded), best, hcost)))
+            if not chk:
+                fails.append(("hybrid_check", "step %d: hybrid path fails check()" % k))
+    ck.case(("hybridseq", line[:100]), ncomp >= 2)
+    return [dict(kind="oracle", routine="hybridseq", clause=c, detail=d, objective=obj, script=script, observed=impl) for c, d in fails]
+
+
 def corpus():
     d = os.path.join(core.VERIF, "corpus", "C17")
     out = []
@@ -993,6 +1153,14 @@ def run(ck):
         futs = [ex.submit(run_scenario, ck, hbin, hchk, sc, ops, "gen", i) for i, sc, ops, _ in jobs]
         futs += [ex.submit(run_hybrid, ck, hbin, sc, r.fork("hyb")) for i, sc, ops, r in jobs if sc.kind != "se2"]
         futs += [ex.submit(run_repair, ck, hbin, sc, r.fork("repair")) for i, sc, ops, r in jobs if sc.kind != "se2"]
+        for j in range(40 if ck.tier == "quick" else 300):
+            futs.append(ex.submit(run_hybridseq, ck, hbin, ck.rng.fork("hseq%d" % j)))
+        for j in range(25 if ck.tier == "quick" else 200):
+            got = gen_toll_scenario(ck.rng.fork("toll%d" % j))
+            if got is None:
+                continue
+            ck.count("scenario:toll-corridor")
+            futs.append(ex.submit(run_scenario, ck, hbin, hchk, got[0], got[1], "toll", j))
         for j in range(8 if ck.tier == "quick" else 40):
             csc, cops = gen_corner_scenario(ck.rng.fork("corner%d" % j))
             ck.count("scenario:corner-zigzag")
@@ -1008,6 +1176,28 @@ def replay(ck, data):
     hbin, hchk = build(ck)
     ck.lean_build([DRIVER])
     script = data["script"]
+    if len(script) > 2 and script[2].startswith("hybridseq"):
+        # re-judge with the oracle of run_hybridseq
+        impl, rc, err = run_h(ck, hbin, script)
+        print("\n".join((impl or [])[1:])[:3000])
+        recorded, bad = [], 0
+        for part in (impl[1].split(" | ")[1:-1] if impl and len(impl) > 1 else []):
+            t = part.split()
+            if t[0] == "rec":
+                recorded.append(F(t[3]))
+            elif t[0] == "clear":
+                recorded = []
+            elif t[0] == "comp" and t[1] != "none" and recorded:
+                hc = F(t[3 + int(t[2]) * 2 + 1])
+                if hc > min(recorded) * (1 + 1e-9) + 1e-12:
+                    print("hybrid cost %r > best recorded %r" % (hc, min(recorded)))
+                    bad = 1
+            elif t[0] == "comp" and t[1] == "none" and recorded:
+                print("no hybrid path although paths are recorded")
+                bad = 1
+        if not bad:
+            print("no failure on the current tree")
+        return bad
     if len(script) > 2 and script[2].startswith("hybrid"):
         impl, rc, err = ck.run_bin(hbin, script)
         print("\n".join(impl or []))
